@@ -19,6 +19,8 @@ Definition crun_gen := crun recent_cap consumer_keeps_early_parts completing_gen
    whatever the handler returned; a completing response drops the parts that arrived before it *)
 Definition prun_orig := prun sco_queue_cap (fun _ => Fin) Fail.
 Definition crun_orig := crun recent_cap false completing_gen nonfinal_gen.
+(* a notification handler that buffers the parts of unknown transactions after it has left the critical section *)
+Definition urun_gen := urun recent_cap consumer_keeps_early_parts completing_gen nonfinal_gen.
 
 (* what the generated constants have to satisfy for the theorems (checked by computation) *)
 Definition gen_ok : bool :=
@@ -26,7 +28,7 @@ Definition gen_ok : bool :=
   && st_eqb direct_raise_resp Fail
   && forallb (fun s => implb (completing_gen s) (final s)) all_states
   && forallb (fun s => Bool.eqb (nonfinal_gen s) (negb (final s))) all_states
-  && consumer_keeps_early_parts && txid_under_lock
+  && consumer_keeps_early_parts && txid_under_lock && consumer_state_under_lock
   && (0 <? Z.of_nat recent_cap) && (0 <? Z.of_nat sco_queue_cap).
 
 (* ---- provider correspondence.  The harness steps the real worker with two operations: a request, or
